@@ -53,8 +53,8 @@ CHECKS = {
           'to be that of the current definition in every tested history.  ConeCyl (calc_k0, calc_fext, _calc_linear_matrices, calc_kT, calc_fint) is put through '
           'the same three clauses with kernel stubs that carry their arguments (attributes r2, H, alphadeg, plyt, Fc, P).'),
     design_ref='DESIGN.md section 4 (C20)',
-    note=('histories of length <= 3 over the listed methods (bounded in length, symbolic in all data); kernels/field functions assumed pure; thread-count independence of the '
-          'compiled prange loops, PanelAssembly/StiffPanelBay/ConeCyl histories and plotting are not yet covered; 8 known findings (cached plyts), 1 fixed defect'),
+    note=('histories of length <= 3 over the listed methods (bounded in length, symbolic in all data); kernels/field functions assumed pure (thread-count independence of the compiled field wrappers is proved in C11); '
+          'PanelAssembly/StiffPanelBay histories and plotting are not yet covered; 8 known findings (cached plyts), 1 fixed defect'),
     technique='effect contracts + symbolic execution; structural comparison of result terms'),
  'C12': dict(
     category='proof',
@@ -87,7 +87,7 @@ CHECKS = {
           'Fc from Nxxtop, symmetrisation, partition.'),
     design_ref='DESIGN.md section 10.6 (C16)',
     note=('cone matrices: stated for the kernel\'s own quadrature (radius frozen per meridian section; exact for cylinders); fsdt_sanders_bcn has no strain function '
-          'and no Gram representation at hand: its positive semi-definiteness is not decided; ConeCyl.lb/eigen (eigen-solver wrappers) are not under contract; '
+          'and no Gram representation at hand: its positive semi-definiteness is not decided; ConeCyl.lb is under contract in C05, ConeCyl.eigen/static are not; '
           'the geier1997/shadmehri2012 modules are not covered; 60 known findings in the two fsdt bcn modules; the compiled extensions cannot be rebuilt '
           'here, so numeric replays show the installed binary'),
     technique='contracts + symbolic execution of the extracted .pyx (generic-iteration schema, local path exploration); trigonometric normal form; formal differentiation; z3 for index cases and divisors'),
@@ -178,14 +178,17 @@ CHECKS = {
           'fall-back), the solver keywords, the back-transform lambda=-1/mu (with the lemma (K+lambda KG)v=0), the scatter of the modes into the rows of '
           'the non-null columns (zeros elsewhere) and the argument pass-through of Panel.lb to calc_k0/calc_kG0 are checked.  ConeCyl.lb is executed the same way for '
           'the four load cases (series block [num0:, num0:], fixed part of the geometric stiffness added to K, both solver attempts, zero rows for the prescribed amplitudes).'),
-    design_ref='DESIGN.md section 4 (C05/C06)', note=EIG_NOTE + '; ConeCyl.lb not yet under contract; 5 known findings, 1 fixed defect',
+    design_ref='DESIGN.md section 4 (C05/C06)', note=EIG_NOTE + '; 13 known findings (requested count not smaller than the active set), 1 fixed defect',
     technique='contracts + symbolic execution with abstract shapes; z3 (LIA) shape obligations; assumed solver contracts'),
  'C06': dict(
     category='proof',
     text=('analysis.freq executed symbolically over abstract arrays for both solver switches, sort on/off, reduced_dof on/off: exception freedom for all sizes, '
           'operators/keywords handed to eigs/eig, the transforms sqrt(w) / sqrt(-1/nu) (with the lemma K v = omega^2 M v), and the pairing obligation that '
-          'values and modes go through the same sort permutation and >1e-6 filter.'),
-    design_ref='DESIGN.md section 4 (C05/C06)', note=EIG_NOTE + '; Panel.freq not yet under contract; 10 known findings, 1 fixed defect',
+          'values and modes go through the same sort permutation and >1e-6 filter.  Panel.freq (duplicate implementation) is executed the same way for '
+          'atype 1..4 without damping: K is the sum of the panel\'s own matrices selected by atype, M = kM, each computed by the corresponding calc_* method, '
+          'both operands of the dense solver are checked.'),
+    design_ref='DESIGN.md section 4 (C05/C06)', note=EIG_NOTE + '; the damping=True branch of Panel.freq is not a K v = omega^2 M v problem and is outside the statement '
+    '(it cannot run: calc_cA is called without its required argument); 42 known findings (10 in analysis.freq, the same two defects 32 times in Panel.freq), 1 fixed defect',
     technique='contracts + symbolic execution with abstract shapes; z3 (LIA) shape obligations; assumed solver contracts'),
  'C09': dict(
     category='proof',
@@ -206,7 +209,7 @@ CHECKS = {
           'the integration-by-parts lemma that turns the code form into the statement form and yields skew-symmetry / zero diagonal with w restrained on the '
           'flow edges is proved exhaustively over the 900 table pairs; Panel.calc_kA (Mach-route formulas, flow dispatch, completion) and calc_cA are '
           'executed symbolically with argument and structure obligations.'),
-    design_ref='DESIGN.md section 4 (C19)', note=KERNEL_NOTE + '; StiffPanelBay.calc_kA delegation not yet under contract; 8 known findings (curvature part completed skew-symmetrically)',
+    design_ref='DESIGN.md section 4 (C19)', note=KERNEL_NOTE + '; StiffPanelBay.calc_kA is proved equal to the full-domain panel\'s calc_kA with the bay\'s size and coefficients (1..2 skin panels, 0..1 2-D stiffeners, first request included; 1 fixed defect); 10 known findings (8: curvature part completed skew-symmetrically; 2: StiffPanelBay.calc_cA cannot run)',
     technique='contracts on kernels and Python methods; symbolic execution; exact normal form + z3'),
  'C02': dict(
     category='proof',
